@@ -25,6 +25,14 @@ def ligIn (i : Input) (g : String) : Bool :=
 def stripSp (s : String) : String :=
   String.ofList ((s.toList.dropWhile (· == ' ')).reverse.dropWhile (· == ' ')).reverse
 
+/-- where _makeContextualAttachments sends the contextual anchor `a` of glyph `g` (none = skipped) -/
+def ctxDestOf (i : Input) (mg : List String) (km : List (String × String)) (g : String) (a : NA) : Option Dest :=
+  if mg.contains g then
+    (if (classOf km a).isNone || a.isMark then none else if a.number.isSome then none else some .mark)
+  else if a.number.isSome && ligOK i g then some .lig
+  else if a.number.isNone && (baseOK i g || ligIn i g) then some .base
+  else none
+
 /-- _makeContextualAttachments: (destination, context, glyph, anchor) in iteration order
     (glyphs sorted by name, anchors in list order); `al` = pruned anchor lists -/
 def ctxAtts (i : Input) (al : AList) (mg : List String) (km : List (String × String)) :
@@ -34,13 +42,7 @@ def ctxAtts (i : Input) (al : AList) (mg : List String) (km : List (String × St
       match a.ctx with
       | none => none
       | some c =>
-        let dest : Option Dest :=
-          if mg.contains e.1 then
-            (if (classOf km a).isNone || a.isMark then none else if a.number.isSome then none else some .mark)
-          else if a.number.isSome && ligOK i e.1 then some .lig
-          else if a.number.isNone && (baseOK i e.1 || ligIn i e.1) then some .base
-          else none
-        match dest with
+        match ctxDestOf i mg km e.1 a with
         | none => none
         | some d => if stripSp c == "" then none else some (d, stripSp c, e.1, a)))
 
